@@ -3,17 +3,21 @@ import Shentu.Gen.Determinism
 /-
   C17 — contract execution is metered.
 
-  Statements about the executable model `Shentu.EVM` of /repo/vm's interpreter loop (one frame;
-  the call family is outside the model).  The model takes every cost from `Shentu.Gen.Gas`, which
+  Statements about the executable model `Shentu.EVM` of /repo/vm's interpreter loop: every opcode byte, the call
+  family and CREATE / CREATE2 included (callee and constructor frames are run by the `child` the frame is given; the
+  statements hold for ANY `child`).  The model takes every cost from `Shentu.Gen.Gas`, which
   the translator regenerates from vm/op_table.go and vm/gas.go on every run; the differential
   driver (Drivers/VmDriver) checks that model and implementation agree on the remaining gas of
   every generated execution.
 
   (a) tie_sites                 the generated gas table was fully recognised in the source
+      tie_create                the CREATE / CREATE2 case charges Burrow's `GasCreateAccount` on the creator's own gas object and has
+                                the shape the model's CREATE relies on (recognised in the source on every run)
   (b) step_gas_monotone         one iteration never increases the remaining gas (also: never clears the error sink)
       run_gas_monotone          neither does a whole run
-  (c) regular_ops_cost          every instruction that is neither halting, nor in the call family, nor one of
-                                EXP / RETURNDATACOPY / CHAINID / SSTORE / LOG0-4 has a table cost ≥ 1   (by `decide` on the generated table)
+  (c) regular_ops_cost          every instruction that is neither halting nor one of EXP / RETURNDATACOPY / CHAINID / SSTORE /
+                                LOG0-4 / DELEGATECALL / CREATE2 / STATICCALL has a table cost ≥ 1   (by `decide` on the generated table;
+                                CREATE costs `CreateGas`, CREATE2 has no static cost in the source and begins with a charged Pop)
       step_costs_at_least_one   an iteration that continues either lowered the gas by ≥ 1 or put an error into
                                 the sink (which stops the frame at the next iteration)
   (d) run_terminates            with initial gas g the loop ends within g + 2 iterations
@@ -25,6 +29,17 @@ open Shentu Shentu.EVM
 
 /-- (a) every extraction site of the gas schedule was recognised in the current source -/
 theorem tie_sites : Gen.Gas.allFound = true := by decide
+
+/-- (a) the CREATE / CREATE2 case of vm/contract.go as the model reads it: it charges Burrow's `GasCreateAccount` (value taken
+    from the Burrow version of go.mod), hands the constructor the creator's own gas object, hashes the creator's code for
+    CREATE2, passes the init code as call data, numbers creations with a counter of the CVM, pushes 0 for a failed
+    constructor without failing the creator, and reports an address in use through the creator's error sink -/
+theorem tie_create :
+    Gen.Gas.createAccountGas_found = true ∧ Gen.Gas.createSharesGas_found = true ∧
+    Gen.Gas.create2HashesCreatorCode_found = Quirks.impl.create2HashesCreatorCode ∧
+    Gen.Gas.createInputIsInitCode_found = Quirks.impl.createInputIsInitCode ∧
+    Gen.Gas.createSeqPerVm_found = true ∧ Gen.Gas.createFailurePushesZero_found = true ∧
+    Gen.Gas.createCollisionIntoSink_found = Quirks.impl.createCollisionAborts := by decide
 
 /-- (a') nowhere in the consensus code is a context's gas meter replaced (regenerated inventory: `WithGasMeter`,
     `NewInfiniteGasMeter`, `NewGasMeter` outside tests): the work a transaction causes is charged to the meter baseapp gave it -/
@@ -163,25 +178,34 @@ theorem opInfo_eq_infoOf (op : Nat) (h : op < 256) : opInfo op = infoOf op := by
 
 /-- the side condition as a computation over the generated table -/
 def regularOK : Bool :=
-  (List.range 256).all fun op => isExt op || isHalting op || isFree op || decide (1 ≤ (infoOf op).static)
+  (List.range 256).all fun op => isHalting op || isFree op || decide (1 ≤ (infoOf op).static)
 
 set_option maxRecDepth 100000 in
 theorem regularOK_true : regularOK = true := by decide
 
-/-- (c) the decidable side condition on the generated table: outside the call family, the halting
-    instructions and EXP / RETURNDATACOPY / CHAINID / SSTORE / LOG0-4, every instruction has a static cost ≥ 1 -/
-theorem regular_ops_cost_table (op : Nat) (h : op < 256) (h1 : isExt op = false) (h2 : isHalting op = false)
+/-- (c) the decidable side condition on the generated table: outside the halting instructions and EXP / RETURNDATACOPY /
+    CHAINID / SSTORE / LOG0-4 / DELEGATECALL / CREATE2 / STATICCALL, every instruction — CREATE included — has a static cost ≥ 1 -/
+theorem regular_ops_cost_table (op : Nat) (h : op < 256) (h2 : isHalting op = false)
     (h3 : isFree op = false) : 1 ≤ (infoOf op).static := by
   have hall := regularOK_true
   unfold regularOK at hall
   rw [List.all_eq_true] at hall
   have := hall op (List.mem_range.mpr h)
-  simpa [h1, h2, h3] using this
+  simpa [h2, h3] using this
 
-theorem regular_ops_cost (op : Nat) (h : op < 256) (h1 : isExt op = false) (h2 : isHalting op = false) (h3 : isFree op = false) :
+theorem regular_ops_cost (op : Nat) (h : op < 256) (h2 : isHalting op = false) (h3 : isFree op = false) :
     1 ≤ (opInfo op).static := by
   rw [opInfo_eq_infoOf op h]
-  exact regular_ops_cost_table op h h1 h2 h3
+  exact regular_ops_cost_table op h h2 h3
+
+/-- (c) CREATE and CREATE2 are metered like every other instruction: CREATE has the table cost `CreateGas` (≥ 1); CREATE2 has no
+    static cost in the source (`onlyCopyGas` ignores its base argument, so `CreateGas` is never charged for it) and is one of
+    the instructions whose first action is a charged Pop; neither ends the frame; both are cases of the interpreter's `switch` -/
+theorem create_metering :
+    (opInfo 0xf0).static = Gen.Gas.CreateGas ∧ 1 ≤ (opInfo 0xf0).static ∧ (opInfo 0xf5).static = 0 ∧ isFree 0xf5 = true ∧
+    isFree 0xf0 = false ∧ isHalting 0xf0 = false ∧ isHalting 0xf5 = false ∧ isKnown 0xf0 = true ∧ isKnown 0xf5 = true := by
+  rw [opInfo_eq_infoOf 0xf0 (by decide), opInfo_eq_infoOf 0xf5 (by decide)]
+  decide
 
 /-- the cost returned by the lookup is at least the table's static cost -/
 theorem gasLookUp_ge_static (q : Quirks) (self : Nat) (info : Gen.Gas.OpInfo) (s : Frame) (c : Nat × Nat) (s1 : Frame)
@@ -248,7 +272,7 @@ theorem execFree_strict (child : ChildFn) (env : Env) (op : Nat) (s : Frame) (c 
   · exact strict_bind (push_strict _) s c s1 h
   · exact strict_bind pop_strict s c s1 h
 
-theorem stepBody_strict (child : ChildFn) (env : Env) (op : Nat) (hop : op < 256) (hext : isExt op = false) (s s' : Frame)
+theorem stepBody_strict (child : ChildFn) (env : Env) (op : Nat) (hop : op < 256) (s s' : Frame)
     (h : (stepBody child env op s).val = (some .cont, s')) : Strict s s' := by
   unfold stepBody at h
   obtain ⟨cost, s1, h1, h⟩ := bind_some h
@@ -284,7 +308,6 @@ theorem stepBody_strict (child : ChildFn) (env : Env) (op : Nat) (hop : op < 256
     have i4 : Inv s3 s' := inv_of h4
     have i2 : s2.gas ≤ s1.gas := by omega
     unfold exec at h3
-    simp only [hext] at h3
     cases hh : isHalting op with
     | true =>
       simp [hh] at h3
@@ -309,7 +332,7 @@ theorem stepBody_strict (child : ChildFn) (env : Env) (op : Nat) (hop : op < 256
         -- obtain the lookup result: cost ≥ static ≥ 1
         obtain ⟨_, s0, _, hl⟩ := bind_some h1
         have hc : (opInfo op).static ≤ cost.1 := gasLookUp_ge_static _ _ _ _ _ _ hl
-        have h1' : 1 ≤ (opInfo op).static := regular_ops_cost op hop hext hh hf
+        have h1' : 1 ≤ (opInfo op).static := regular_ops_cost op hop hh hf
         left
         have := i1.1; have := ix.1; have := i3.1; have := i4.1
         omega
@@ -337,16 +360,11 @@ theorem step_costs_at_least_one (child : ChildFn) (env : Env) (s s' : Frame) (hs
   simp only [hs] at h
   split at h
   · simp at h
-  · rename_i hext
-    split at h
+  · split at h
     · obtain ⟨_, _, _, h2⟩ := bind_some h
       rw [pure_val] at h2
       simp at h2
-    · have hext' : isExt (opAt env s.pc) = false := by
-        cases hx : isExt (opAt env s.pc) with
-        | false => rfl
-        | true => simp [hx] at hext
-      exact stepBody_strict child env _ (opAt_lt env s.pc) hext' s s' h
+    · exact stepBody_strict child env _ (opAt_lt env s.pc) s s' h
 
 -- ---------------------------------------------------------------- (d) termination
 
@@ -422,10 +440,12 @@ end Shentu.Props.C17
 
 open Shentu.Props.C17 in
 #print axioms tie_sites
+#print axioms Shentu.Props.C17.tie_create
 #print axioms Shentu.Props.C17.step_gas_monotone
 #print axioms Shentu.Props.C17.step_error_sticky
 #print axioms Shentu.Props.C17.run_gas_monotone
 #print axioms Shentu.Props.C17.regular_ops_cost
+#print axioms Shentu.Props.C17.create_metering
 #print axioms Shentu.Props.C17.step_costs_at_least_one
 #print axioms Shentu.Props.C17.run_terminates
 #print axioms Shentu.Props.C17.oog_reported
